@@ -18,6 +18,7 @@ EXPLANATION = (
     "the construction site; (exit-order) __exit__ resets the context before finish(); (report-path) failure "
     "reports are logged through log_message/write_traceback.  The arithmetic induction from these premises "
     "to run-wide uniqueness/contiguity is documented in DESIGN.md, not machine-checked."
+    "  Message.write builds its routing keys in a per-write copy (C13.copy)."
 )
 RULE = ("obligation = rule instance bound to an emission site / allocation site / TaskLevel method / root "
         "construction; non-trivial = a CFG path or dataflow state was examined")
@@ -513,6 +514,7 @@ def run(chk):
     common.rule_defaults(chk, "C02", modules=("_action", "_message", "_output"))
     c06.rule_once(chk)  # a serialized position continued twice duplicates every level below it
     from . import c13
+    c13.rule_message_copies(chk)  # Message.write builds its routing keys (logger, serializer) in a per-write copy: kept in the Message they divert later writes, whose levels then never reach the destinations (a gap)
     c13.rule_copy(chk)  # what a destination received is a private copy: a dict reused by a later emission cannot turn a delivered message into a duplicate
     from . import c08
     c08.rule_fanout(chk)   # what a destination that accepted every message observes while others fail
